@@ -322,3 +322,452 @@ Proof.
     rewrite ?Hset, ?Hmap, ?Hlen2;
     repeat split; auto; try lia; try discriminate; try (intros E; discriminate E).
 Qed.
+
+Lemma same_abs_star fl fc s1 s2 x :
+  same_abs s1 s2 -> (mem s2 = mem s1 \/ mem s2 = filter (fun t => negb (memb t x)) (mem s1)) -> In x (block_txs s1) ->
+  star fl fc (absf s1) (absf s2).
+Proof.
+  intros (H1 & H2 & H3 & H4 & H5) Hm Hx. unfold absf. rewrite H1, H2, H3, H4, H5.
+  destruct Hm as [->| ->]; [apply star_refl | apply star_one, t_exec, Hx].
+Qed.
+
+Lemma in_block_txs_last l (pb : blk) : In (b_txs pb) (map b_txs (l ++ [pb])).
+Proof. rewrite map_app. apply in_or_app; right; left; reflexivity. Qed.
+
+(* what tail_effect gives, packaged for a state s1 reached from s by a first segment of the action *)
+Lemma tail_wrap fl s s1 l pb t k e :
+  blocks s1 = l ++ [pb] -> length l = th s1 -> sh s1 = th s1 ->
+  (sh s1 = 0 -> forall x, In x (block_txs s1) -> x = []) ->
+  star fl false (absf s) (absf s1) ->
+  let L := commit_tail (S (th s1)) (b_txs pb) t in
+  let s2 := apply_acts s1 (cut k e L) in
+  dshape s2 /\ up s2 = up s1 /\ star fl false (absf s) (absf s2) /\
+  (cut k e L = L -> sh s2 = th s2 /\ (th s2 = 0 -> length (blocks s2) = 1)).
+Proof.
+  intros Hb Hl Hs H0 Hst L s2.
+  destruct (tail_effect s1 l pb t k e Hb Hl Hs) as (Hsame & Hup & Hm & Hlen & Hcomb & Hfull).
+  fold L in Hsame, Hup, Hm, Hlen, Hcomb, Hfull. fold s2 in Hsame, Hup, Hm, Hlen, Hcomb, Hfull.
+  repeat split.
+  - destruct Hcomb as [[A B]|[[A B]|[A B]]]; rewrite A, B, Hlen; [left | right | left]; split; auto.
+  - intros Z x Hx. destruct Hsame as (Hbt & _). rewrite Hbt in Hx. apply H0; [|exact Hx].
+    destruct Hcomb as [[A B]|[[A B]|[A B]]]; lia.
+  - exact Hup.
+  - eapply star_trans; [exact Hst|]. eapply same_abs_star; [exact Hsame | exact Hm |].
+    unfold block_txs. rewrite Hb. apply in_block_txs_last.
+  - destruct (Hfull H); lia.
+  - intros Z. destruct (Hfull H); lia.
+Qed.
+
+Ltac quad := split; [|split; [|split]].
+
+Lemma lossy_block_in l : has_block l = true -> lossy l = false.
+Proof. unfold lossy. intros ->. apply andb_false_r. Qed.
+
+Lemma produce_effect ts s k e :
+  shape s -> up s = true ->
+  let L := fst (produce_acts ts s) in
+  let c := cut k e L in
+  let s2 := apply_acts s c in
+  dshape s2 /\ up s2 = true /\ star (lossy c) false (absf s) (absf s2) /\
+  (c = L -> sh s2 = th s2 /\ (th s2 = 0 -> length (blocks s2) = 1)).
+Proof.
+  intros [[Hd H0] Hu] Hup L c s2. destruct (Hu Hup) as [Hsh Hg]. subst s2 c L.
+  assert (Hlen : length (blocks s) = th s \/ length (blocks s) = S (th s)) by (destruct Hd as [[_ ?]|[? _]]; [assumption | lia]).
+  assert (Hsame0 : dshape s) by (split; assumption).
+  unfold produce_acts.
+  destruct Hlen as [Hlen|Hlen].
+  - (* no block above the store height *)
+    destruct (th s) as [|n] eqn:Eth; [specialize (Hg eq_refl); lia|].
+    destruct (nth_error (blocks s) n) as [b0|] eqn:E0; [|apply nth_error_None in E0; lia].
+    destruct (nth_error (blocks s) (S n)) as [pb|] eqn:E1; [assert (nth_error (blocks s) (S n) <> None) as X by congruence; apply nth_error_Some in X; lia|].
+    destruct (queue s) as [|b q] eqn:Eq.
+    + (* empty queue *)
+      destruct (before ts (Some (b_time b0))).
+      * (* skipped *)
+        cbn [fst]. destruct k; cbn [cut apply_acts fold_left apply_act apply_wr];
+          (quad; [exact Hsame0 | exact Hup | apply star_refl | intros _; split; lia]).
+      * cbn [fst]. destruct k as [|[|k]].
+        -- cbn [cut apply_acts fold_left]. quad; [exact Hsame0 | exact Hup | apply star_refl | intros E; discriminate E].
+        -- cbn [cut apply_acts fold_left apply_act apply_wr]. quad; [exact Hsame0 | exact Hup | apply star_refl | intros E; discriminate E].
+        -- cbn [cut]. rewrite !apply_acts_cons. cbn [apply_act apply_wr pred].
+           set (eb := {| b_txs := []; b_time := ts; b_signed := false |}).
+           set (s1 := set_blocks (set_nth (S n) eb (blocks s)) s).
+           assert (Hb1 : blocks s1 = blocks s ++ [eb]) by (subst s1; cbn [blocks set_blocks]; rewrite <- Hlen; apply set_nth_length).
+           assert (Hlossy : lossy (AW WMeta :: AW (WBlock (S (S n)) [] ts false) :: cut k e (commit_tail (S (S n)) [] ts)) = false) by (apply lossy_block_in; reflexivity).
+           rewrite Hlossy.
+           assert (Et : th s1 = S n) by (subst s1; cbn; lia).
+           destruct (tail_wrap false s s1 (blocks s) eb ts k e Hb1) as (A & B & C & D).
+           { rewrite Et; exact Hlen. } { rewrite Et; subst s1; cbn; lia. } { subst s1; cbn; intros; lia. }
+           { apply star_one. unfold absf, block_txs. subst s1; cbn [blocks queue seen mem taken released set_blocks].
+             rewrite <- Hlen, set_nth_length, map_app. cbn. apply t_empty. }
+           rewrite Et in A, B, C, D. cbn [b_txs eb] in A, B, C, D.
+           quad; [exact A | rewrite B; subst s1; exact Hup | exact C |].
+           intros E. injection E as E. exact (D E).
+    + (* a batch is queued *)
+      destruct (before ts (Some (b_time b0))).
+      * (* F12: released, then an error *)
+        cbn [fst]. destruct k as [|[|k]]; cbn [cut apply_acts fold_left apply_act apply_wr].
+        -- quad; [exact Hsame0 | exact Hup | apply star_refl | intros E; discriminate E].
+        -- quad; [exact Hsame0 | exact Hup | | intros E; discriminate E].
+           unfold absf, block_txs. cbn. rewrite Eq. apply star_one, t_drop. reflexivity.
+        -- quad; [exact Hsame0 | exact Hup | | intros _; cbn; split; lia].
+           unfold absf, block_txs. cbn. rewrite Eq. apply star_one, t_drop. reflexivity.
+      * cbn [fst]. destruct k as [|[|[|k]]].
+        -- cbn [cut apply_acts fold_left]. quad; [exact Hsame0 | exact Hup | apply star_refl | intros E; discriminate E].
+        -- cbn [cut apply_acts fold_left apply_act apply_wr]. quad; [exact Hsame0 | exact Hup | | intros E; discriminate E].
+           unfold absf, block_txs. cbn. rewrite Eq. apply star_one, t_drop. reflexivity.
+        -- cbn [cut apply_acts fold_left apply_act apply_wr]. quad; [exact Hsame0 | exact Hup | | intros E; discriminate E].
+           unfold absf, block_txs. cbn. rewrite Eq. apply star_one, t_drop. reflexivity.
+        -- cbn [cut]. rewrite !apply_acts_cons. cbn [apply_act apply_wr pred].
+           set (eb := {| b_txs := b; b_time := ts; b_signed := false |}).
+           set (s0 := set_released (released s ++ [b]) (set_queue (tl (queue s)) s)).
+           set (s1 := set_blocks (set_nth (S n) eb (blocks s0)) s0).
+           assert (Hb1 : blocks s1 = blocks s ++ [eb]) by (subst s1 s0; cbn [blocks set_blocks set_released set_queue]; rewrite <- Hlen; apply set_nth_length).
+           assert (Hlossy : lossy (AW (WQDel b) :: AW WMeta :: AW (WBlock (S (S n)) b ts false) :: cut k e (commit_tail (S (S n)) b ts)) = false) by (apply lossy_block_in; reflexivity).
+           rewrite Hlossy.
+           assert (Et : th s1 = S n) by (subst s1 s0; cbn; lia).
+           destruct (tail_wrap false s s1 (blocks s) eb ts k e Hb1) as (A & B & C & D).
+           { rewrite Et; exact Hlen. } { rewrite Et; subst s1 s0; cbn; lia. } { subst s1 s0; cbn; intros; lia. }
+           { apply star_one. unfold absf, block_txs. subst s1 s0; cbn [blocks queue seen mem taken released set_blocks set_released set_queue].
+             rewrite <- Hlen, set_nth_length, map_app, Eq. cbn. apply t_move. }
+           rewrite Et in A, B, C, D. cbn [b_txs eb] in A, B, C, D.
+           quad; [exact A | rewrite B; subst s1 s0; exact Hup | exact C |].
+           intros E. injection E as E. exact (D E).
+  - (* the block of the next height is already stored: it is re-used *)
+    destruct (list_snoc_of_length _ _ Hlen) as (l & pb & Hb & Hl).
+    assert (Ep : nth_error (blocks s) (th s) = Some pb) by (rewrite Hb, <- Hl; apply nth_error_snoc).
+    assert (Elt : exists lt, (match th s with
+         | O => Some None
+         | S k => match nth_error (blocks s) k with Some b => Some (Some (b_time b)) | None => None end
+         end) = Some lt).
+    { destruct (th s) as [|n] eqn:Eth; [eexists; reflexivity|].
+      destruct (nth_error (blocks s) n) eqn:E0; [eexists; reflexivity | apply nth_error_None in E0; lia]. }
+    destruct Elt as [lt ->]. rewrite Ep. cbn [fst].
+    assert (Hlossy : lossy (cut k e (commit_tail (S (th s)) (b_txs pb) (b_time pb))) = false).
+    { unfold commit_tail. destruct k as [|[|[|k]]]; destruct e; reflexivity. }
+    rewrite Hlossy.
+    destruct (tail_wrap false s s l pb (b_time pb) k e Hb Hl Hsh) as (A & B & C & D).
+    { intros Z. apply H0. exact Z. } { apply star_refl. }
+    quad; [exact A | rewrite B; exact Hup | exact C | exact D].
+Qed.
+
+Lemma cut_writes k e ws : cut k e (map AW ws) = map AW (firstn k ws).
+Proof. revert k. induction ws as [|w ws IH]; intros [|k]; cbn; try reflexivity. rewrite IH; reflexivity. Qed.
+
+Lemma produce_acts_full ts s : cut 10 true (fst (produce_acts ts s)) = fst (produce_acts ts s).
+Proof.
+  unfold produce_acts.
+  destruct (match th s with O => Some None | S k => match nth_error (blocks s) k with Some b => Some (Some (b_time b)) | None => None end end);
+    [|reflexivity].
+  destruct (nth_error (blocks s) (th s)); [reflexivity|].
+  destruct (queue s); destruct (before ts o); reflexivity.
+Qed.
+
+Lemma seen_marks p : forall s, apply_acts s (map (fun t => AW (WSeen t)) p) = set_seen (rev p ++ seen s) s.
+Proof.
+  induction p as [|t p IH]; intros s.
+  - destruct s; reflexivity.
+  - cbn [map]. rewrite apply_acts_cons. cbn [apply_act apply_wr]. rewrite IH.
+    cbn [seen set_seen rev]. rewrite <- app_assoc. reflexivity.
+Qed.
+
+Lemma has_del_marks p : has_del (map (fun t => AW (WSeen t)) p) = false.
+Proof. induction p; [reflexivity | exact IHp]. Qed.
+
+Lemma reap_effect max s k e (crash : bool) :
+  up s = true ->
+  let L := reap_acts max s in
+  let c := if crash then cut k e L else L in
+  let s2 := apply_acts (pre s AReap) c in
+  lossy c = false /\ blocks s2 = blocks s /\ sh s2 = sh s /\ th s2 = th s /\ up s2 = up s /\
+  star false crash (absf s) (absf s2).
+Proof.
+  intros Hup L c s2. subst s2 c L. unfold pre. rewrite Hup. unfold reap_acts, new_txs.
+  set (s1 := set_taken (taken s ++ mem s) s).
+  assert (Htake : star false crash (absf s) (absf s1)) by (apply star_one; unfold absf, block_txs; subst s1; cbn; apply t_take).
+  destruct (select (seen s) [] (mem s)) as [|t0 n'] eqn:En.
+  { assert (E : (if crash then cut k e [] else []) = []) by (destruct crash; reflexivity). rewrite E.
+    cbn. repeat split; auto. }
+  destruct (full max (queue s)).
+  { assert (E : (if crash then cut k e [] else []) = []) by (destruct crash; reflexivity). rewrite E.
+    cbn. repeat split; auto. }
+  set (n := t0 :: n') in *.
+  assert (Hput : forall p r, p ++ r = n -> (crash = false -> r = []) ->
+     let c := AW (WQPut n) :: map (fun t => AW (WSeen t)) p in
+     lossy c = false /\ blocks (apply_acts s1 c) = blocks s /\ sh (apply_acts s1 c) = sh s /\ th (apply_acts s1 c) = th s /\
+     up (apply_acts s1 c) = true /\ star false crash (absf s) (absf (apply_acts s1 c))).
+  { intros p r Hpr Hr c. subst c. rewrite apply_acts_cons, seen_marks. cbn [apply_act apply_wr].
+    split; [unfold lossy; cbn [has_del existsb]; rewrite (has_del_marks p : existsb _ _ = false); reflexivity|].
+    subst s1. cbn [blocks sh th up set_seen set_queue set_taken seen queue]. repeat split; try exact Hup.
+    eapply star_trans; [exact Htake|]. apply star_one. unfold absf, block_txs.
+    cbn [blocks queue seen mem taken released set_seen set_queue set_taken]. rewrite <- Hpr.
+    apply t_put; [rewrite Hpr; subst n; symmetry; exact En | rewrite Hpr; subst n; discriminate | exact Hr]. }
+  destruct crash.
+  - rewrite <- (map_map WSeen AW n).
+    change (AW (WQPut n) :: map AW (map WSeen n)) with (map AW (WQPut n :: map WSeen n)).
+    rewrite cut_writes. destruct k as [|k].
+    + cbn. repeat split; auto.
+    + cbn [firstn map]. rewrite firstn_map, map_map.
+      apply (Hput (firstn k n) (skipn k n)); [apply firstn_skipn | discriminate].
+  - apply (Hput n []); [apply app_nil_r | reflexivity].
+Qed.
+
+Lemma boot_effect gt s k e (crash : bool) :
+  dshape s ->
+  let L := boot_acts gt s in
+  let c := if crash then cut k e L else L in
+  let s2 := apply_acts s c in
+  lossy c = false /\ dshape s2 /\ star false false (absf s) (absf s2) /\
+  (c = L -> sh s2 = th s2 /\ (th s2 = 0 -> length (blocks s2) = 1)).
+Proof.
+  intros [Hd H0] L c s2. subst s2 c L. unfold boot_acts.
+  destruct (sh s) as [|m] eqn:Esh.
+  - (* no state record: the genesis block is (re)written *)
+    assert (Eth : th s = 0) by (destruct Hd as [[? _]|[? _]]; lia).
+    assert (Hlen : length (blocks s) = 0 \/ length (blocks s) = 1) by (destruct Hd as [[_ ?]|[? _]]; lia).
+    rewrite Eth. cbn [Nat.eqb Nat.ltb Nat.leb app].
+    assert (Hfull : let s2 := apply_acts s [AW (WBlock 1 [] gt true)] in
+              dshape s2 /\ star false false (absf s) (absf s2) /\ sh s2 = th s2 /\ (th s2 = 0 -> length (blocks s2) = 1)).
+    { cbn [apply_acts fold_left apply_act apply_wr pred]. unfold dshape, absf, block_txs.
+      cbn [blocks sh th queue seen mem taken released set_blocks]. rewrite Esh, Eth.
+      destruct (blocks s) as [|g [|g' r]] eqn:Eb; cbn [length] in Hlen; try lia; cbn [set_nth map length b_txs].
+      - split; [split; [left; split; [reflexivity | right; reflexivity] | intros _ x [<-|[]]; reflexivity]|].
+        split; [apply star_one, (t_empty false false [])|]. split; [reflexivity | intros _; reflexivity].
+      - assert (Eg : b_txs g = []) by (apply (H0 eq_refl); unfold block_txs; rewrite Eb; left; reflexivity).
+        rewrite Eg. split; [split; [left; split; [reflexivity | right; reflexivity] | intros _ x [<-|[]]; reflexivity]|].
+        split; [apply star_refl|]. split; [reflexivity | intros _; reflexivity]. }
+    assert (Hnone : dshape s /\ star false false (absf s) (absf s)) by (split; [split; [rewrite Esh; exact Hd | rewrite Esh; exact H0] | apply star_refl]).
+    destruct crash; [destruct k|]; cbn [cut].
+    + split; [reflexivity|]. cbn [apply_acts fold_left]. destruct Hnone as [Hn1 Hn2]. split; [exact Hn1 | split; [exact Hn2 | intros E; discriminate E]].
+    + split; [reflexivity|]. destruct Hfull as (A & B & C & D). split; [exact A | split; [exact B | intros _; split; [exact C | exact D]]].
+    + split; [reflexivity|]. destruct Hfull as (A & B & C & D). split; [exact A | split; [exact B | intros _; split; [exact C | exact D]]].
+  - (* a state record exists: raise the store height if it is behind *)
+    cbn [Nat.eqb app].
+    destruct (th s <? S m) eqn:Elt.
+    + apply Nat.ltb_lt in Elt.
+      assert (Hs : S m = S (th s) /\ length (blocks s) = S (th s)) by (destruct Hd as [[? _]|[? ?]]; [lia | split; lia]).
+      destruct Hs as [Hs Hl].
+      assert (Hnone : dshape s /\ star false false (absf s) (absf s)) by (split; [split; [rewrite Esh; assumption | rewrite Esh; intros; lia] | apply star_refl]).
+      assert (Hfull : let s2 := apply_acts s [AW (WHeight (S m))] in
+              dshape s2 /\ star false false (absf s) (absf s2) /\ sh s2 = th s2 /\ (th s2 = 0 -> length (blocks s2) = 1)).
+      { cbn [apply_acts fold_left apply_act apply_wr]. unfold dshape, absf, block_txs.
+        cbn [blocks sh th queue seen mem taken released set_th]. rewrite Esh.
+        split; [split; [left; split; [reflexivity | left; lia] | intros; lia]|].
+        split; [apply star_refl|]. split; [reflexivity | intros; lia]. }
+      destruct crash; [destruct k|]; cbn [cut].
+      * split; [reflexivity|]. cbn [apply_acts fold_left]. destruct Hnone as [Hn1 Hn2]. split; [exact Hn1 | split; [exact Hn2 | intros E; discriminate E]].
+      * split; [reflexivity|]. destruct Hfull as (A & B & C & D). split; [exact A | split; [exact B | intros _; split; [exact C | exact D]]].
+      * split; [reflexivity|]. destruct Hfull as (A & B & C & D). split; [exact A | split; [exact B | intros _; split; [exact C | exact D]]].
+    + apply Nat.ltb_ge in Elt.
+      assert (E : (if crash then cut k e [] else []) = []) by (destruct crash; reflexivity). rewrite E.
+      cbn [apply_acts fold_left]. split; [reflexivity|]. rewrite Esh.
+      assert (Hs : S m = th s) by (destruct Hd as [[? _]|[? _]]; lia).
+      split; [split; [destruct Hd as [[? ?]|[? ?]]; [left; split; [lia | assumption] | lia] | intros; lia]|].
+      split; [apply star_refl|]. intros _. split; [lia|]. intros Z. lia.
+Qed.
+
+Lemma absf_set_up v s : absf (set_up v s) = absf s.
+Proof. reflexivity. Qed.
+
+Lemma dshape_set_up v s : dshape (set_up v s) <-> dshape s.
+Proof. unfold dshape, block_txs. cbn. tauto. Qed.
+
+(* every item of a history is a short sequence of abstract transitions; the lossy one is used only by items the
+   guard excludes, a cut hand-off only by crashed items; and the shape invariant is kept *)
+Lemma step_refines max gt s it : shape s ->
+  shape (step max gt s it) /\ star (lossy (item_acts max gt s it)) (is_crash it) (absf s) (absf (step max gt s it)).
+Proof.
+  intros Hsh. pose proof Hsh as [Hd Hu].
+  destruct it as [t | a | a k e].
+  - (* arrive *)
+    cbn [step item_acts is_crash]. split.
+    + split; [exact Hd | exact Hu].
+    + apply star_one. unfold absf, block_txs. cbn. apply t_arrive.
+  - cbn [step item_acts is_crash]. destruct a as [| | ts]; cbn [acts_of fst pre].
+    + (* boot *)
+      destruct (boot_effect gt s 0 false false Hd) as (A & B & C & D). cbn iota in A, B, C, D.
+      rewrite A, absf_set_up. split; [split|].
+      * apply dshape_set_up; exact B.
+      * intros _. cbn [sh th blocks set_up]. apply D; reflexivity.
+      * eapply star_weaken; [| |exact C]; auto.
+    + (* reap *)
+      destruct (up s) eqn:Eup.
+      * destruct (reap_effect max s 0 false false Eup) as (A & B & C & D & E & F). cbn iota in A, B, C, D, E, F.
+        unfold pre in B, C, D, E, F. rewrite Eup in B, C, D, E, F.
+        cbn [fst]. rewrite A. split; [|exact F]. split.
+        -- destruct Hd as [Hd1 Hd2]. split; [rewrite B, C, D; exact Hd1 | unfold block_txs; rewrite B, C; exact Hd2].
+        -- intros _. rewrite B, C, D. apply Hu; exact Eup.
+      * cbn [fst apply_acts fold_left]. split; [exact Hsh | apply star_refl].
+    + (* produce *)
+      destruct (up s) eqn:Eup.
+      * destruct (produce_effect ts s 10 true Hsh Eup) as (A & B & C & D). cbn zeta in A, B, C, D.
+        rewrite produce_acts_full in A, B, C, D.
+        destruct (produce_acts ts s) as [L o] eqn:Ep. cbn [fst] in *.
+        split; [split; [exact A | intros _; apply D; reflexivity] | eapply star_weaken; [| |exact C]; auto].
+      * cbn [fst apply_acts fold_left]. split; [exact Hsh | apply star_refl].
+  - cbn [step item_acts is_crash]. rewrite absf_set_up.
+    assert (Hux : forall x, ushape (set_up false x)) by (intros x Z; discriminate Z).
+    destruct a as [| | ts]; cbn [acts_of fst pre].
+    + destruct (boot_effect gt s k e true Hd) as (A & B & C & D). cbn iota in A, B, C, D.
+      rewrite A. split; [split; [apply dshape_set_up; exact B | apply Hux] | eapply star_weaken; [| |exact C]; auto].
+    + destruct (up s) eqn:Eup.
+      * destruct (reap_effect max s k e true Eup) as (A & B & C & D & E & F). cbn iota in A, B, C, D, E, F.
+        unfold pre in B, C, D, E, F. rewrite Eup in B, C, D, E, F.
+        cbn [fst]. rewrite A. split; [|exact F]. split; [|apply Hux].
+        apply dshape_set_up. destruct Hd as [Hd1 Hd2]. split; [rewrite B, C, D; exact Hd1 | unfold block_txs; rewrite B, C; exact Hd2].
+      * cbn [fst cut apply_acts fold_left]. split; [split; [apply dshape_set_up; exact Hd | apply Hux] | apply star_refl].
+    + destruct (up s) eqn:Eup.
+      * destruct (produce_effect ts s k e Hsh Eup) as (A & B & C & D). cbn zeta in A, B, C, D.
+        destruct (produce_acts ts s) as [L o] eqn:Ep. cbn [fst] in *.
+        split; [split; [apply dshape_set_up; exact A | apply Hux] | eapply star_weaken; [| |exact C]; auto].
+      * cbn [fst cut apply_acts fold_left]. split; [split; [apply dshape_set_up; exact Hd | apply Hux] | apply star_refl].
+Qed.
+
+(* ---- (4) histories ------------------------------------------------------------------------------------------ *)
+Lemma shape_st0 : shape st0.
+Proof.
+  split; [split; [left; split; [reflexivity | left; reflexivity] | intros _ x []] | intros Z; discriminate Z].
+Qed.
+
+Lemma run_app max gt h1 h2 s : run max gt s (h1 ++ h2) = run max gt (run max gt s h1) h2.
+Proof. revert s. induction h1 as [|it h1 IH]; intros s; [reflexivity | cbn; apply IH]. Qed.
+
+Lemma run_shape max gt h : forall s, shape s -> shape (run max gt s h).
+Proof. induction h as [|it h IH]; intros s Hs; [exact Hs | cbn; apply IH; apply step_refines; exact Hs]. Qed.
+
+(* any history: all transitions *)
+Lemma run_star max gt h : forall s, shape s -> star true true (absf s) (absf (run max gt s h)).
+Proof.
+  induction h as [|it h IH]; intros s Hs; [apply star_refl|]. cbn [run].
+  destruct (step_refines max gt s it Hs) as [Hs' Hst].
+  eapply star_trans; [eapply star_weaken; [| |exact Hst]; auto | apply IH; exact Hs'].
+Qed.
+
+(* inside the guard: never the lossy transition *)
+Lemma run_star_safe max gt h : forall s, shape s -> safe_hist max gt s h = true -> star false true (absf s) (absf (run max gt s h)).
+Proof.
+  induction h as [|it h IH]; intros s Hs Hg; [apply star_refl|]. cbn [run]. cbn [safe_hist] in Hg.
+  apply andb_true_iff in Hg as [Hl Hg]. apply negb_true_iff in Hl.
+  destruct (step_refines max gt s it Hs) as [Hs' Hst]. rewrite Hl in Hst.
+  eapply star_trans; [eapply star_weaken; [| |exact Hst]; auto | apply IH; assumption].
+Qed.
+
+(* without crashes: never a cut hand-off *)
+Lemma run_star_crashfree max gt h : forall s, shape s -> crash_free h = true -> star true false (absf s) (absf (run max gt s h)).
+Proof.
+  induction h as [|it h IH]; intros s Hs Hg; [apply star_refl|]. cbn [run]. cbn [crash_free forallb] in Hg.
+  apply andb_true_iff in Hg as [Hl Hg]. apply negb_true_iff in Hl.
+  destruct (step_refines max gt s it Hs) as [Hs' Hst]. rewrite Hl in Hst.
+  eapply star_trans; [eapply star_weaken; [| |exact Hst]; auto | apply IH; assumption].
+Qed.
+
+Lemma Pinv_st0 : Pinv (absf st0).
+Proof. split; intros t []. Qed.
+Lemma Oeq_st0 : Oeq (absf st0).
+Proof. split; [intros b [] | reflexivity]. Qed.
+Lemma Oinv_st0 : Oinv (absf st0).
+Proof. split; [intros b [] | constructor]. Qed.
+Lemma Dinv_st0 : Dinv (absf st0).
+Proof. split; [constructor | intros t []]. Qed.
+
+(* no loss, inside the guard *)
+Lemma no_loss_partial max gt h :
+  safe_hist max gt st0 h = true ->
+  let s := final max gt h in
+  (forall t, In t (taken s) ->
+     In t (concat (block_txs s)) \/ In t (concat (queue s)) \/ (In t (mem s) /\ memb t (seen s) = false)) /\
+  (quiescedb s = true -> forall t, In t (taken s) -> In t (concat (committed s))).
+Proof.
+  intros Hg s.
+  assert (HP : Pinv (absf s)).
+  { eapply (star_inv Pinv false true); [intros a b; apply Pinv_tr | apply run_star_safe; [apply shape_st0 | exact Hg] | apply Pinv_st0]. }
+  destruct HP as [Ha _]. unfold stored in Ha. cbn [absf aB aQ aS aM aT] in Ha.
+  split.
+  - intros t Ht. destruct (Ha t Ht) as [[?|?]|?]; auto.
+  - intros Hq t Ht. unfold quiescedb in Hq.
+    apply andb_true_iff in Hq as [Hq Hn]. apply andb_true_iff in Hq as [Hq Hp]. apply andb_true_iff in Hq as [_ Hq].
+    destruct (queue s) eqn:Eq; [|discriminate]. destruct (nth_error (blocks s) (th s)) eqn:Ep; [discriminate|].
+    destruct (new_txs s) eqn:En; [|discriminate].
+    assert (Hc : committed s = block_txs s).
+    { unfold committed. apply firstn_all2. unfold block_txs. rewrite map_length. apply nth_error_None; exact Ep. }
+    rewrite Hc. destruct (Ha t Ht) as [[?|Hx]|[Hi Hu]]; [assumption | cbn in Hx; contradiction |].
+    exfalso. unfold new_txs in En.
+    assert (X : In t (select (seen s) [] (mem s))) by (apply select_complete; auto).
+    rewrite En in X. exact X.
+Qed.
+
+(* order: for every history *)
+Lemma order_full max gt h :
+  let s := final max gt h in
+  Subseq (filter nonempty (committed s)) (released s) /\
+  (safe_hist max gt st0 h = true -> filter nonempty (block_txs s) = released s).
+Proof.
+  intros s. split.
+  - assert (HO : Oinv (absf s)).
+    { eapply (star_inv Oinv true true); [intros a b; apply Oinv_tr | apply run_star; apply shape_st0 | apply Oinv_st0]. }
+    destruct HO as [_ HS]. cbn [absf aB aR] in HS.
+    destruct (filter_firstn_prefix nonempty (block_txs s) (th s)) as [r Hr]. rewrite Hr in HS.
+    eapply Subseq_app_l; exact HS.
+  - intros Hg.
+    assert (HO : Oeq (absf s)).
+    { eapply (star_inv Oeq false true); [intros a b; apply Oeq_tr | apply run_star_safe; [apply shape_st0 | exact Hg] | apply Oeq_st0]. }
+    destruct HO as [_ HS]. exact HS.
+Qed.
+
+(* no duplicates without crashes: for every crash-free history *)
+Lemma no_dup_full max gt h :
+  crash_free h = true -> NoDup (concat (block_txs (final max gt h)) ++ concat (queue (final max gt h))).
+Proof.
+  intros Hc.
+  assert (HD : Dinv (absf (final max gt h))).
+  { eapply (star_inv Dinv true false); [intros a b; apply Dinv_tr | apply run_star_crashfree; [apply shape_st0 | exact Hc] | apply Dinv_st0]. }
+  destruct HD as [HN _]. exact HN.
+Qed.
+
+Lemma no_dup_chain_full max gt h : crash_free h = true -> NoDup (concat (block_txs (final max gt h))).
+Proof. intros Hc. apply no_dup_full with (max := max) (gt := gt) in Hc. apply NoDup_app_iff in Hc. tauto. Qed.
+
+(* a refused hand-off leaves no trace: nothing is marked seen, so the same transactions are offered again *)
+Lemma refused_no_trace max gt s :
+  up s = true -> full max (queue s) = true ->
+  step max gt s (IRun AReap) = set_taken (taken s ++ mem s) s.
+Proof.
+  intros Hu Hf. cbn [step item_acts acts_of pre]. rewrite Hu. cbn [fst]. unfold reap_acts. rewrite Hf.
+  destruct (new_txs s); reflexivity.
+Qed.
+
+(* ---- (5) lost for ever ------------------------------------------------------------------------------------------ *)
+(* a transaction that is marked seen and is neither in a block record nor in the queue never comes back *)
+Definition Linv (t : tx) (a : abs) : Prop := In t (aS a) /\ ~ stored a t.
+
+Lemma Linv_tr t fl fc a b : tr fl fc a b -> Linv t a -> Linv t b.
+Proof.
+  intros H [Hs Hn]. destruct H; unfold Linv, stored in *; cbn [aB aQ aS] in *; auto.
+  - split; [apply in_or_app; right; exact Hs|]. intros [Hx|Hx]; [apply Hn; left; exact Hx|].
+    rewrite concat_app in Hx. apply in_app_or in Hx as [Hx|Hx]; [apply Hn; right; exact Hx|].
+    cbn in Hx. rewrite app_nil_r in Hx. rewrite H in Hx. apply select_sound in Hx as (_ & Hu & _).
+    apply memb_false in Hu. exact (Hu Hs).
+  - split; [exact Hs|]. intros [Hx|Hx]; apply Hn; [left; exact Hx | right; cbn; apply in_or_app; right; exact Hx].
+  - split; [exact Hs|]. intros [Hx|Hx]; apply Hn.
+    + rewrite concat_app in Hx. apply in_app_or in Hx as [Hx|Hx]; [left; exact Hx|].
+      cbn in Hx. rewrite app_nil_r in Hx. right. cbn. apply in_or_app; left; exact Hx.
+    + right. cbn. apply in_or_app; right; exact Hx.
+  - split; [exact Hs|]. intros [Hx|Hx]; apply Hn; [|right; exact Hx].
+    rewrite concat_app in Hx. cbn in Hx. rewrite app_nil_r in Hx. left; exact Hx.
+Qed.
+
+Definition lostb (t : tx) (s : st) : bool :=
+  memb t (seen s) && negb (memb t (concat (block_txs s))) && negb (memb t (concat (queue s))).
+
+Lemma lost_forever max gt h t :
+  lostb t (final max gt h) = true ->
+  forall h', ~ In t (concat (block_txs (final max gt (h ++ h')))).
+Proof.
+  intros Hl h'. unfold final. rewrite run_app. fold (final max gt h).
+  unfold lostb in Hl. apply andb_true_iff in Hl as [Hl H3]. apply andb_true_iff in Hl as [H1 H2].
+  apply negb_true_iff in H2, H3. apply memb_in in H1. apply memb_false in H2, H3.
+  assert (HL : Linv t (absf (run max gt (final max gt h) h'))).
+  { eapply (star_inv (Linv t) true true); [intros a b; apply Linv_tr | apply run_star; apply run_shape, shape_st0 |].
+    split; [exact H1 | intros [?|?]; contradiction]. }
+  destruct HL as [_ HL]. intros Hx. apply HL. left. exact Hx.
+Qed.
